@@ -13,7 +13,7 @@ T = r'''#! unit: %(lc)s.option_list_wire_image
 #! entry: h
 #! cbmc: --unwind %(unwind)d --unwinding-assertions
 #! allow-exc: none
-#! anchors: %(cls)s::write_serialization%(xanch)s (%(src)s), PDUOption::option / data_size / length_field / data_ptr (include/tins/pdu_option.h), OutputMemoryStream methods (include/tins/memory_helpers.h)
+#! anchors: %(cls)s::write_serialization, %(cls)s::header_size%(xanch)s (%(src)s), PDUOption::option / data_size / length_field / data_ptr (include/tins/pdu_option.h), OutputMemoryStream methods (include/tins/memory_helpers.h)
 #! assumed: the option vector holds two arbitrary options as the parser or add_%(what)s creates them (length field == stored size <= %(maxlen)d); the cached size is the sum of their wire sizes (C04 %(lc)s bookkeeping units)%(xassumed)s
 #! replay: c03_option_lists
 //@ include lib/endian.h
@@ -22,6 +22,11 @@ T = r'''#! unit: %(lc)s.option_list_wire_image
 typedef struct { size_t n; OPT e[2]; } OPTV;
 %(decls)s
 %(funcs)s
+//@ func %(src)s %(cls)s::header_size
+sig: static uint32_t %(cls)s_header_size(const %(cls)s* this)
+class: %(cls)s %(hdr)s
+%(hs_rules)s
+//@ endfunc
 #define MAXLEN %(maxlen)d
 size_t G_k;
 void h(void) {
@@ -39,6 +44,7 @@ void h(void) {
   %(setup)s
   uint32_t hs = %(hs)s;
   uint32_t sz = hs + sum;
+  __CPROVER_assert(%(cls)s_header_size(d) == %(hs_expect)s, "header_size() is the number of octets write_serialization writes (C02: size-exact)");
   uint8_t* v = malloc(sz); __CPROVER_assume(v != NULL);
   %(cls)s_write_serialization(d, v, sz);
   /* read back with the wire grammar of %(cls)s's parser */
@@ -77,7 +83,7 @@ rule: it->data_ptr\\(\\), it->data_size\\(\\) ==> OPT_data_ptr(it), OPT_data_siz
 rule?: OMS_write\\(&stream, (OPT_data_ptr.*?)\\); ==> OMS_write_buf(&stream, \\1);
 mutant: stream\\.write\\(Endian::host_to_be<uint16_t>\\(it->length_field\\(\\)\\)\\); ==> stream.write<uint16_t>(it->length_field());
 //@ endfunc''',
-      setup='', hs='(uint32_t)sizeof(pppoe_header)',
+      setup='', hs='(uint32_t)sizeof(pppoe_header)', hs_rules='', hs_expect='sz',
       rd_code='(uint16_t)(v[pos] | (v[pos + 1] << 8))   /* the tag type is kept in wire order in memory: read<uint16_t>() */', rd_len='(uint16_t)((v[pos + 2] << 8) | v[pos + 3])',
       post='__CPROVER_assert(((uint16_t)((v[4] << 8) | v[5])) == sum, "PPPoE payload length = the octets of the tags that follow the header (C05)");'),
  dict(cls='Dot11', what='option', src='src/dot11/dot11_base.cpp', hdr='include/tins/dot11/dot11_base.h', vec='options_', size_member='options_size_', ohdr=2, maxcode='255',
@@ -99,7 +105,7 @@ rule?: OMS_write\\(&stream, (OPT_data_ptr.*?)\\); ==> OMS_write_buf(&stream, \\1
 mutant: stream\\.write<uint8_t>\\(it->length_field\\(\\)\\); ==> stream.write<uint8_t>(it->length_field() + 1);
 //@ endfunc''',
       setup='uint32_t W_ext = nondet_uint32_t(), W_fixed = nondet_uint32_t(); __CPROVER_assume(W_ext <= 8 && W_fixed <= 12); d->G_ext = W_ext; d->G_fixed = W_fixed;',
-      hs='(uint32_t)sizeof(dot11_header) + W_ext + W_fixed',
+      hs='(uint32_t)sizeof(dot11_header) + W_ext + W_fixed', hs_rules='', hs_expect='sz - W_ext - W_fixed   /* the subclass adds its own ext header and fixed parameters */',
       rd_code='v[pos]', rd_len='v[pos + 1]', post=''),
 dict(cls='DHCPv6', what='option', src='src/dhcpv6.cpp', hdr='include/tins/dhcpv6.h', vec='options_', size_member='options_size_', ohdr=4, maxcode='65535',
       xanch=', DHCPv6::write_option, DHCPv6::is_relay_message, DHCPv6::msg_type', xassumed='',
@@ -134,6 +140,7 @@ rule: DHCPv6_write_option\\(this, \\*it, stream\\) ==> DHCPv6_write_option(this,
 //@ endfunc''',
       setup='uint8_t W_type = nondet_uint8_t(); d->header_data_[0] = W_type;',
       hs='((W_type == 12 || W_type == 13) ? 2u + 32u : 4u)   /* RFC 8415: relay messages carry hop count + two addresses, the others a 3-octet transaction id */',
+      hs_rules='rule: ipaddress_type::address_size ==> 16', hs_expect='sz',
       rd_code='(uint16_t)((v[pos] << 8) | v[pos + 1])', rd_len='(uint16_t)((v[pos + 2] << 8) | v[pos + 3])', post=''),
 ]
 
